@@ -113,6 +113,7 @@ type Wallet struct {
 	Cfg     *config.Config
 	Points  *Points
 	started bool
+	stopped bool
 	sent    int64 // messages delivered to the handler since Start
 	base    int64 // handle.loop count right after Start
 }
@@ -166,7 +167,12 @@ func OpenWalletPub(node *Node, dir string, cfg *config.Config, pubPass string) (
 // Start runs WalletManager.Start (catch-up + goroutines).
 func (w *Wallet) Start() error {
 	masswallet.SetVerifPointHook(w.Points.hit)
+	before := w.Node.listenerSnapshot()
 	if err := w.W.Start(); err != nil {
+		// WalletManager.Start registers its listener before the catch-up; a failed start leaves
+		// it registered (the real process would exit): drop it so that announcements do not go
+		// to a dead handler
+		w.Node.dropListenersNotIn(before)
 		return err
 	}
 	w.started = true
@@ -175,6 +181,10 @@ func (w *Wallet) Start() error {
 
 // Stop runs WalletManager.Stop with a generous watchdog; returns false if it did not return.
 func (w *Wallet) Stop(timeout time.Duration) bool {
+	if w.stopped {
+		return true
+	}
+	w.stopped = true
 	done := make(chan struct{})
 	go func() {
 		defer close(done)
@@ -214,6 +224,9 @@ func (w *Wallet) Quiesce(timeout time.Duration) bool {
 		if w.Points.Loop() >= atomic.LoadInt64(&w.sent)+1+w.extraLoops() {
 			return true
 		}
+		if w.DB.Frozen() && time.Now().After(deadline.Add(-timeout).Add(300*time.Millisecond)) {
+			return false // simulated crash: nothing will make progress any more
+		}
 		if time.Now().After(deadline) {
 			return false
 		}
@@ -239,6 +252,9 @@ func (w *Wallet) WorkerIdle(timeout time.Duration) bool {
 		}
 		if err == nil && !busy {
 			return true
+		}
+		if w.DB.Frozen() {
+			return false // simulated crash
 		}
 		if time.Now().After(deadline) {
 			return false
